@@ -44,8 +44,14 @@ def execute(c):
     n = len(allp)
     xyz = np.stack([t.x(), t.y(), t.z()], axis=1).astype(np.float64)
     # map every node of the result to the input point it is (exact coordinates)
-    key = {tuple(np.asarray(allp[i], dtype=np.float32).tolist()): i for i in range(n)}
-    idx = [key.get(tuple(np.asarray(xyz[m], dtype=np.float32).tolist()), -1) for m in range(len(xyz))]
+    # (coincident input points are interchangeable: the k-th node at a position stands for the k-th input point at that position)
+    key = {}
+    for i in range(n):
+        key.setdefault(tuple(np.asarray(allp[i], dtype=np.float32).tolist()), []).append(i)
+    idx = []
+    for m in range(len(xyz)):
+        lst = key.get(tuple(np.asarray(xyz[m], dtype=np.float32).tolist()), [])
+        idx.append(lst.pop(0) if lst else -1)
     attrok = int(len(xyz) == n and sorted(idx) == list(range(n)) and [int(v) for v in t.id()] == list(range(n)))
     par = [-2] * n
     if attrok:
@@ -85,6 +91,11 @@ def lattice_cases(ctx, q):
             if t % 4 == 1:
                 c["prev"] = [[list(LATTICE[0]), list(LATTICE[7])]]
             cases.append(c)
+            if t % 6 == 2 and m >= 3:
+                # coincident points: a point recorded twice (pooled tracings), or the soma given again as a point of the cloud
+                dup = list(pts) + [pts[t % len(pts)]] if (t // 6) % 2 else [soma if soma is not None else pts[0]] + list(pts)
+                d = build_case(dup, soma, bf, k, ex, sort, ["f64", "f32"][(t // 12) % 2], "mst" if bf == (0, 1) else "cuntz")
+                cases.append(d)
     return cases
 
 
@@ -105,6 +116,9 @@ def random_cases(ctx, count, nmax):
             pts = pts + np.array([41234.5, -38765.25, 52000.75])
             soma = list(pts[int(rng.integers(0, n))] + np.array([0.31, -0.22, 0.27]))
         api = "mst" if bf == (0, 1) and t % 2 == 0 else "cuntz"
+        if t % 6 == 3:
+            # coincident points in a general cloud: two rows recorded twice, and (when a soma is given) the soma again as a row
+            pts = np.concatenate([pts, pts[:2]] + ([np.array([soma])] if soma is not None else []))
         c = build_case([list(r) for r in pts], soma, bf, k, ex, t % 3 != 1, dtype, api)
         if t % 3 == 2:              # a history: the transform object is first used on tiny clouds
             c["prev"] = [[list(r) for r in pts[:2]]] + ([[list(r) for r in pts[2:5]]] if t % 2 else [])
